@@ -11,6 +11,10 @@ def first_word(r):
     return r.split(' ', 1)[0] if r else ''
 
 
+def framework_over_budget(r):
+    return first_word(r) in ('fuel', 'resource', 'hang')
+
+
 def run_req(src, stdin='', w='-', r='-', steps=20000):
     return 'run %s %s %s %s %d' % (hx(src), hx(stdin), w, r, steps)
 
@@ -1272,12 +1276,27 @@ def c15(run):
     reqs = []
     for a, b, _ in cases:
         reqs += [run_req(a), run_req(b)]
-    m, im = run.tie(reqs, proj=proj_run, functional=True, desc=lambda i: {'program': cases[i // 2][i % 2]})
+    # the observable of this property is the RELATION between the two runs (same behaviour or not),
+    # not what either run prints: the tie compares the model's verdict with the implementation's
+    m = common.model(reqs)
+    keep = [i for i in range(len(cases)) if not (framework_over_budget(m[2 * i]) or framework_over_budget(m[2 * i + 1]))]
+    run.skipped_budget += len(cases) - len(keep)
+    sub = []
+    for i in keep:
+        sub += [reqs[2 * i], reqs[2 * i + 1]]
+    got = common.impl(sub)
+    im = [None] * len(reqs)
+    for j, i in enumerate(keep):
+        im[2 * i], im[2 * i + 1] = got[2 * j], got[2 * j + 1]
+    run.programs += len(sub)
     for i, (a, b, k) in enumerate(cases):
         ra, rb = im[2 * i], im[2 * i + 1]
-        if ra is None or rb is None:
+        if ra is None or rb is None or ra == 'skipped' or rb == 'skipped':
             continue
         pa, pb = proj_run(ra), proj_run(rb)
+        model_same = proj_run(m[2 * i]) == proj_run(m[2 * i + 1])
+        if model_same != (pa == pb):
+            run.disagree({'original': a, 'renamed_recased': b}, 'same behaviour: %s' % model_same, 'same behaviour: %s' % (pa == pb), True)
         run.case(b, k >= 3, sample={'original': a[:300], 'renamed': b[:300], 'answer': ra[:100]} if rng.random() < 0.004 else None, outcome=pa[0], names=min(k, 12))
         if pa != pb:
             run.fail({'original': a, 'renamed_recased': b, 'answers': [ra[:300], rb[:300]]},
